@@ -86,6 +86,10 @@ Eval(g, S, fuel, D) ==
     [] g[1] = "isground" -> IF Ground(Norm(g[2])) THEN R(<<S>>, FALSE) ELSE R(<<>>, FALSE)
     [] g[1] \in {"conj", "closure"} -> EvalSeq(g[2], S, fuel, D)
     [] g[1] = "rawconj" -> EvalSeq(<<g[2], g[3]>>, S, fuel, D)
+    (* <<"twice", g, g2>>: the implementation enters ONE goal value two times in a row; its meaning is the
+       conjunction of g with g2, the same goal with its bound variables renamed apart (every entry of a
+       closure / fresh block / pattern arm introduces new variables) *)
+    [] g[1] = "twice" -> EvalSeq(<<g[2], g[3]>>, S, fuel, D)
     [] g[1] = "rawdisj" -> EvalClauses(<< <<g[2]>>, <<g[3]>> >>, S, fuel, D)
     [] g[1] = "disj" -> EvalClauses([i \in 1..Len(g[2]) |-> <<g[2][i]>>], S, fuel, D)
     [] g[1] \in {"conde", "cond"} -> EvalClauses(g[2], S, fuel, D)
